@@ -10,7 +10,9 @@ PROP_FILES = ["Props/C04.v"]
 RUN_FILES = ["Run/C04Run.v"]
 RULE = ("(a) end to end through impl.assemble: every branch mnemonic (stub signature [OffsetOperandStub signed]) x every byte distance "
         "-300..+300 and SOB x -140..+6, the target written as .+-k, symbol, label, label+-k (backward and forward), local label 1$ / 1:, "
-        "decimal absolute address (8. / 600.); accept/reject compared in Coq with the right-hand sides of branch_accept_iff / "
+        "decimal absolute address (8. / 600.), and bare numeric local labels whose octal and decimal readings differ (10 17 20 77 100 010 8 15 64 12, "
+        "forward and backward) with a decoy label carrying the other reading (8 15 16 63 64 ...) in the same scope at another address -- the branch "
+        "must reach the label whose name is the written digits; accept/reject compared in Coq with the right-hand sides of branch_accept_iff / "
         "sob_accept_iff and the accepted word decoded by Spec.decode to the target; "
         "(b) relative and relative-deferred operands in first and second position after 0 or 1 extension words, targets over the "
         "whole 64 KiB space incl. wrap-around through 0o177777/0, beyond 16 bits and negative, link addresses 0 .. 0o177770, target "
@@ -140,6 +142,71 @@ def make_branch(m, reg, d, spelling, rng):
     return c
 
 
+# bare numeric local labels whose octal and decimal readings differ, with a decoy label that carries the other reading
+NUM_LABELS = [("10", "8"), ("17", "15"), ("20", "16"), ("77", "63"), ("100", "64"), ("010", "8"), ("10", "010"), ("8", "10"), ("15", "17"),
+              ("64", "100"), ("12", "10")]
+
+
+def make_numlabel(m, reg, d, name, decoy, decoy_first, rng):
+    """branch at distance d to the local label written as the bare digits `name`; `decoy:` sits in the same scope
+    at another address.  Returns None if the layout is not expressible."""
+    if d % 2:
+        return None
+    c = BrCase()
+    c.m, c.reg, c.d = m, reg, d
+    c.spelling = "numlabel:%s/%s:%s" % (name, decoy, "decoy-first" if decoy_first else "decoy-last")
+    insn = m + " " + (("r%d, " % reg) if reg is not None else "") + name
+    base = rng.choice([0o1000, 0o2000, 0o100000])
+    gap = rng.choice([2, 4, 8])
+    blk = lambda n: (" .blkb " + IC.num(n)) if n else ""
+    if d <= -2:
+        n = -d - 2
+        if decoy_first:
+            lines = [decoy + ":" + blk(gap), name + ":" + blk(n), insn]
+            tgt, addr = base + gap, base + gap + n
+        else:
+            if n < 2:
+                return None
+            n1 = rng.choice([2, n]) if n > 2 else 2
+            lines = [name + ":" + blk(n1), decoy + ":" + blk(n - n1), insn]
+            tgt, addr = base, base + n
+        off, total = addr - base, addr - base + 2
+    else:
+        addr = base
+        if decoy_first:
+            if d < 2:
+                return None
+            q = rng.choice([0, d - 2])
+            lines = [insn] + ([".blkb " + IC.num(q)] if q else []) + [decoy + ":" + blk(d - q), name + ":"]
+            total = 2 + d
+        else:
+            lines = [insn] + ([".blkb " + IC.num(d)] if d else []) + [name + ":" + blk(gap), decoy + ":"]
+            total = 2 + d + gap
+        tgt, off = base + 2 + d, 0
+    assert tgt == addr + 2 + d
+    c.addr, c.t, c.off, c.total = addr, tgt, off, total
+    c.src = "\n".join([".link " + IC.octnum(base)] + lines) + "\n"
+    return c
+
+
+def numlabel_cases(brs, sobs, rng, tier):
+    cases = []
+    for m in brs + sobs:
+        sob = m in sobs
+        for name, decoy in NUM_LABELS:
+            back = [-2, -4, -6, -20, -126] + ([-128, -130] if sob else [-128, -254, -256, -258])
+            fwd = [0, 2, 4] if sob else [0, 2, 4, 20, 252, 254, 256]
+            ds = back + fwd if tier == "thorough" else [rng.choice(back[:5]), rng.choice(back), rng.choice(fwd[:4]), rng.choice(fwd)]
+            for d in ds:
+                for decoy_first in ((True, False) if tier == "thorough" else (rng.random() < 0.5,)):
+                    c = make_numlabel(m, rng.randrange(8) if sob else None, d, name, decoy, decoy_first, rng)
+                    if c is None:
+                        c = make_numlabel(m, rng.randrange(8) if sob else None, d, name, decoy, not decoy_first, rng)
+                    if c is not None:
+                        cases.append(c)
+    return cases
+
+
 def branch_cases(brs, sobs, rng, tier):
     cases = []
     allsp = tier == "thorough"
@@ -163,6 +230,7 @@ def branch_cases(brs, sobs, rng, tier):
                 c = make_branch(m, rng.randrange(8), d, sp, rng)
                 if c is not None:
                     cases.append(c)
+    cases += numlabel_cases(brs, sobs, rng, tier)
     return cases
 
 
@@ -345,7 +413,7 @@ def explore(rep, br, tier, seed):
     for c in bc:
         rep.add_eval()
         rep.count("branch:" + c.res["outcome"])
-        rep.count("spelling:" + c.spelling)
+        rep.count("spelling:" + c.spelling.split(":")[0])
         rep.nontrivial((c.m, c.d, c.spelling))
     rep.traces_validated += len(bc)
     rep.sample({"source": bc[5].src, "distance": bc[5].d, "impl": {k: bc[5].res.get(k) for k in ("outcome", "code")}})
